@@ -11,6 +11,14 @@ CHECKS = {
     note='Trusted: rustc MIR dump = compiled program; Z3; contracts for Vec/HashSet/slice::sort (validated natively on sampled '
          'paths every run). Bounds: vector length <=5 (quick) / <=7 (thorough), members <=3/4.',
     technique='symbolic execution of MIR + Z3 (bounded), native replay', design='6/C10'),
+ 'C02': dict(
+    text='(a) get_line_number executed from MIR on every text of up to 5 (quick) / 7 (thorough) characters — class newline/other per path, '
+         'byte width 1..4 per character and the offset symbolic — against 1 + #line feeds before the offset, Z3 deciding each path for all '
+         'widths and token offsets; (b) the three analyze_for_* functions with parser, detectors and line function uninterpreted: the '
+         'returned set equals {line(start)} of the detector\'s locations for the same file text, for every pattern.',
+    note='Regex by contract (captures_iter of the pattern \\n yields the line-feed offsets), validated natively on every path; '
+         'BTreeSet/HashSet contracts. Outside: texts longer than the bound; the parser\'s Loc.start.',
+    technique='symbolic execution of MIR + Z3 (bounded text length), native replay', design='6/C02'),
 }
 NOT_YET = "check not built yet (framework under construction); see DESIGN.md section 6"
 NA = {
